@@ -49,6 +49,8 @@ def dec(o):
             return frozenset(dec(x) for x in o["$set"])
         if "$tuple" in o:
             return tuple(dec(x) for x in o["$tuple"])
+        if "$bytes" in o:
+            return bytes.fromhex(o["$bytes"])
         if "$dict" in o:
             return {dec(k): dec(v) for k, v in o["$dict"]}
         return {k: dec(v) for k, v in o.items()}
